@@ -174,8 +174,13 @@ class Shadow:
         rng, cfg = self.rng, self.cfg
         if cfg.get('duppvd') and rng.random() < 0.04:
             return {'op': 'duppvd'}, None
-        r = rng.random()
         limit = 7 if (not cfg.get('rr') and cfg['ilevel'] < 4) else 9
+        mix = getattr(self, 'opmix', None) or {'addfp': 36, 'adddir': 20, 'rmfile': 8, 'rmdir': 6, 'addlink': 10, 'rmlink': 5,
+                                               'addsym': 8, 'hide': 7}
+        cats = sorted(mix)
+        pick = rng.choices(cats, weights=[mix[c] for c in cats])[0]
+        # map the category onto the threshold ladder below
+        r = {'addfp': 0.0, 'adddir': 0.40, 'rmfile': 0.60, 'rmdir': 0.66, 'addlink': 0.72, 'rmlink': 0.82, 'addsym': 0.88, 'hide': 0.95}[pick]
         if r < 0.36:
             parent = rng.choice(self.dirs())
             nss = self.pick_namespaces(parent)
